@@ -558,8 +558,16 @@ fn self_exe() -> PathBuf {
 /// A child running this binary under an address-space cap (a runaway run must die, not take the
 /// machine with it). Not used for the ASan / Miri variants, which reserve huge address ranges.
 fn capped_self(args: &[&str]) -> std::process::Command {
+    capped_bin(None, args)
+}
+
+fn capped_bin(bin: Option<&str>, args: &[&str]) -> std::process::Command {
     let mut c = std::process::Command::new("sh");
-    c.arg("-c").arg("ulimit -v 12000000 2>/dev/null; exec \"$0\" \"$@\"").arg(self_exe());
+    c.arg("-c").arg("ulimit -v 12000000 2>/dev/null; exec \"$0\" \"$@\"");
+    match bin {
+        Some(b) => c.arg(b),
+        None => c.arg(self_exe()),
+    };
     c.args(args);
     c
 }
@@ -605,6 +613,7 @@ pub fn check_main(prop: &str, tier: &str) -> i32 {
     let tmp = tmp_dir();
     let pid = std::process::id();
     let mut children: Vec<Child> = Vec::new();
+    let mut alt_workers = 0u64;
     // interleaved chunks so that every worker sees a similar mix; ranges are contiguous blocks
     let per = (budget.units + nworkers - 1) / nworkers;
     for w in 0..nworkers {
@@ -614,7 +623,12 @@ pub fn check_main(prop: &str, tier: &str) -> i32 {
             continue;
         }
         let prefix = tmp.join(format!("w-{}-{}-{}", pid, prop, w));
-        let proc = capped_self(&["worker", prop, tier, &verif_seed.to_string(), &from.to_string(), &to.to_string(), prefix.to_str().unwrap()])
+        // every second worker runs the user-like build (no overflow checks, no debug assertions)
+        let alt = std::env::var("LRUSIM_ALT_BIN").ok().filter(|p| w % 2 == 1 && Path::new(p).exists());
+        if alt.is_some() {
+            alt_workers += 1;
+        }
+        let proc = capped_bin(alt.as_deref(), &["worker", prop, tier, &verif_seed.to_string(), &from.to_string(), &to.to_string(), prefix.to_str().unwrap()])
             .stdout(std::process::Stdio::null())
             .spawn();
         match proc {
@@ -988,6 +1002,7 @@ pub fn check_main(prop: &str, tier: &str) -> i32 {
             "faults_planned_but_not_reached": total.fault_unfired,
             "known_findings_hit": total.known_hits,
             "workers": nworkers,
+            "workers_running_the_user_like_build_without_overflow_checks_and_debug_assertions": alt_workers,
             "sanitizer_passes": san,
             "batch_digest": format!("{:016x}", total.digest),
         },
